@@ -15,8 +15,8 @@
 (* -17/-16/15/16, -129/-128/127/128, short branches -128..127 from the following instruction, PCR bases.            *)
 (* Constants: Full (FALSE: the offset / PCR / direct-page cross products are complete for the representative        *)
 (* mnemonics Rep and rotate 1 in Mod for the others; TRUE: complete for all), Salt (interior values, rotation),     *)
-(* K (branch distances within K of both limits), Parts / Part (the run takes the mnemonics whose opcode number is    *)
-(* congruent to Part modulo Parts: Parts parallel runs cover the table).                                           *)
+(* K (branch distances within K of both limits), Parts / Part (slice of the mnemonics taken by this run, see Mine:   *)
+(* Parts parallel runs cover the table).                                                                            *)
 EXTENDS Isa6809, Json
 CONSTANTS Full, Salt, K, Parts, Part
 VARIABLES leaf
@@ -36,7 +36,9 @@ OpNo(mn) == OpNoF[mn]
 Keep(mn, h) == Full \/ mn \in Rep \/ (h + OpNo(mn) + Salt) % Mod = 0
 L(s, p, d) == [s |-> s, pc |-> p, dpr |-> d]
 
-Mine(mn) == OpNo(mn) % Parts = Part
+\* slice of the run: the representative mnemonics (most leaves) are dealt out one by one, the others by opcode number
+RepSeq == <<"LDA", "LDY", "CMPS", "LEAX", "NEG">>
+Mine(mn) == IF mn \in Rep THEN (CHOOSE i \in 1..Len(RepSeq) : RepSeq[i] = mn) % Parts = Part ELSE OpNo(mn) % Parts = Part
 MnsOf(modes) == {e.mn : e \in {x \in OpTab : x.mode \in modes /\ Mine(x.mn)}}
 IdxMns == MnsOf({"idx"})
 AddrMns == MnsOf({"dir", "ext"})
